@@ -218,6 +218,11 @@ def native_polyak():
     return bad, n
 
 
+def replay_scope(unit, obl):
+    """the native replay of this property searches per unit, not per obligation: run it once per unit"""
+    return "unit"
+
+
 def replay(unit, obl):
     if unit == "get_induced_vector_potential":
         import tdgl
